@@ -103,7 +103,29 @@ def run(ctx):
     it = p.func("AbstractIter", "__iter__")
     irets = [r for r in walk_own(it.node) if isinstance(r, ast.Return)]
     if not (len(irets) == 1 and norm(irets[0].value) == it.selfname):
-        ctx.viol("I2", it, it.node, "__iter__ does not return self", construct="AbstractIter.__iter__ return")
+        # alternative: iter() hands out the stored strategy generator itself - the same one __next__ advances - created under
+        # the same "only when the stored one is None, and stored back" discipline
+        icfg = typer.cfg_of(it)
+        ialiases = {field}
+        for n_ in walk_own(it.node):
+            if isinstance(n_, ast.Assign) and len(n_.targets) == 1 and isinstance(n_.targets[0], ast.Name) and norm(n_.value) == field:
+                ialiases.add(n_.targets[0].id)
+        icreates = [c for c in walk_own(it.node) if isinstance(c, ast.Call) and norm(c.func) == "%s.__init" % it.selfname]
+        good = len(irets) == 1 and norm(irets[0].value) in ialiases and len(icreates) <= 1
+        if good and icreates:
+            hs_ = [cn for cn in icfg.nodes if cn.kind == "stmt" and any(x is icreates[0] for x in ast.walk(cn.ast))]
+            good = bool(hs_) and all(any(none_test(c) is not None and none_test(c)[0] in ialiases and none_test(c)[1] is True and o is True
+                                         for c, o, _ in icfg.guards_of(cn)) for cn in hs_)
+            stored_ = any(isinstance(n_, ast.Assign) and any(norm(t) == field for t in n_.targets)
+                          and (n_.value is icreates[0] or (isinstance(n_.value, ast.Name) and n_.value.id in ialiases))
+                          for n_ in walk_own(it.node))
+            good = good and stored_
+        if good:
+            ctx.inst("I2", it, irets[0], "__iter__ hands out the one stored strategy generator (created once, kept)")
+        else:
+            ctx.viol("I2", it, it.node, "__iter__ returns neither self nor the one stored strategy generator (created when the stored one is None "
+                     "and stored back): iterating the object twice, or mixing iter() and next(), starts a second traversal",
+                     construct="AbstractIter.__iter__ return")
     # the strategy generator is created once (when the stored one is None) from __init and stored back
     creates = [c for c in walk_own(nxt.node) if isinstance(c, ast.Call) and norm(c.func) == "%s.__init" % selfn]
     ok = len(creates) == 1
@@ -211,6 +233,25 @@ def _const_eval(e, env):
     raise _Unknown(type(e).__name__)
 
 
+def accepts_list_start(init_node):
+    """AbstractIter.__init treats a value of exactly the builtin type list (or tuple) as a collection of start nodes"""
+    for n in ast.walk(init_node):
+        if isinstance(n, ast.Compare) and len(n.ops) == 1 and isinstance(n.left, ast.Call) and isinstance(n.left.func, ast.Name) \
+                and n.left.func.id == "type" and isinstance(n.ops[0], (ast.In, ast.Is, ast.Eq)):
+            names = {x.id for x in ast.walk(n.comparators[0]) if isinstance(x, ast.Name)}
+            if "list" in names:
+                return True
+    return False
+
+
+def _init_accepts_list_start(zz):
+    base = zz.cls
+    while base is not None and base.name != "AbstractIter":
+        base = base.bases[0] if base.bases else None
+    ini = base.lookup("_AbstractIter__init") if base is not None else None
+    return ini is not None and accepts_list_start(ini.node)
+
+
 def zigzag_alternation(zz):
     """Abstract run of ZigZag's loop over a two-valued (parity / boolean) state: the k-th group drawn from the
     LevelOrderGroupIter must be yielded unchanged for even k and reversed for odd k.  Returns (ok, text, node)."""
@@ -233,7 +274,8 @@ def zigzag_alternation(zz):
         chp = zz.posparams[0]
         start = src.args[0] if src.args else next((k.value for k in src.keywords if k.arg == "node"), None)
         start = resolve_local(zz, start) if start is not None else None
-        if start is None or norm(start) != "%s[0]" % chp:
+        forest_ok = isinstance(start, ast.Name) and start.id == chp and _init_accepts_list_start(zz)
+        if not forest_ok and (start is None or norm(start) != "%s[0]" % chp):
             return False, "the group iterator does not start at the start node (%s[0])" % chp, src
     itnames = {t.id for n in walk_own(zz.node) if isinstance(n, ast.Assign) and n.value is src for t in n.targets if isinstance(t, ast.Name)}
     loops = [n for n in walk_own(zz.node) if isinstance(n, (ast.While, ast.For))]
